@@ -309,9 +309,11 @@ def check_live_dynamic(prog, facts, m):
         for r in writes_of(n):
             last_write[(fr, r)] = t
         if n["kind"] == "FuncEntry":
-            # new activation: nothing written yet
-            for key in [k for k in last_write if k[0] == fr]:
+            # new activation (the entry node itself is still recorded at the caller's depth; the
+            # body runs one level deeper): nothing written yet at that depth
+            for key in [k for k in last_write if k[0] in (fr, fr + 1)]:
                 del last_write[key]
+            barrier.pop(fr + 1, None)
     return None
 
 
